@@ -65,6 +65,14 @@ def tla_classpath():
     return _CP
 
 
+def atomic_dump(obj, path):
+    """caches are shared by concurrently running checks: write them atomically"""
+    tmp = f"{path}.{os.getpid()}.tmp"
+    with open(tmp, "w") as f:
+        json.dump(obj, f)
+    os.replace(tmp, path)
+
+
 def tlc_ok(out):
     return "Model checking completed. No error has been found." in out
 
